@@ -5,6 +5,12 @@ import json, os, subprocess
 VERIF = os.path.dirname(os.path.dirname(os.path.abspath(__file__)))
 
 CLAIMED = {
+    "C08": dict(
+        category="proof",
+        text="PARTIAL, two halves. Proved (coq/Properties_C08.v, 14, closed under the global context): a reference syntax written from RFC 8259 and XML 1.0 with json_parse (json_print d) = d and xml_parse (xml_print x) = x for every well-formed DOM, JSON white-space invariance, totality of both parsers; and theorems about a model of the adapter logic of rapidjson_archive.h / pugixml_archive.h (which DOM is built for a value, how a DOM is read back into typed targets, writer failure is raised, loading is invariant under member order and under spellings the reader types alike; the integer-with-fraction spelling is refuted with its exact class, J43). Validated per document on every run, not proved: RapidJSON and pugixml themselves - every document the implementation produces is decoded per the configured encoding, parsed by the EXTRACTED VERIFIED reference parser and its DOM compared with the model's DOM of the value; every load compared with the model; every valid document re-rendered by independent emitters (white space, escapes, character references, CDATA, member/attribute order, numeric spelling, encoding, BOM) must load like the original; reference parsers cross-checked against Python json / expat. Defects F26 F27 F28 F29 F29a F29w F40 F42 found here were repaired; J41 J43 J44 J46 J47 are known findings.",
+        design_ref="DESIGN.md 4 (C08)",
+        note="RapidJSON 1.1.0 / pugixml 1.13 writers, parsers, number<->text and encoding streams are third party: neither modelled nor trusted, validated document by document (translation-validation style) with the verified parser as the independent standard reader. Not proved: soundness of the reference parsers in the accept=>standard direction (cross-checked only), load invariance for std::map targets, options pass-through, stream/encoding behaviour at load time. XML is run with paddingCharNum >= 1 (documented precondition of the options).",
+        technique="Coq proof (verified reference JSON/XML parsers + adapter model) with per-document validation of the implementation's output by the extracted parser and model-vs-implementation correspondence"),
     "C09": dict(
         category="proof",
         text="Coq theorems T_C09_* (coq/Properties_C09.v, 29, closed under the global context): an RFC 4180 reference parser accepts exactly the renderings of a table and returns it; the writer model's output is such a rendering for any byte-string fields and every allowed separator, quoting exactly when needed, stream output identical; both reader models (memory, and the stream reader for every chunk size) load EVERY RFC rendering (optional quoting, LF/CRLF, optional final break) to exactly its rows for any requested column order, reject records of another width, agree with each other (stream = memory), and are total on arbitrary text. Refuted with exact classes: ragged save => terminate (F18), zero rows => empty text the loader rejects (F22) — known findings. Tied to /repo by correspondence (tables x separators x renderings from an independent RFC writer, malformed stream, fields straddling the stream buffer); defects F21 F23 F24 F25 found here were repaired by fix: commits.",
@@ -29,6 +35,12 @@ CLAIMED = {
         design_ref="DESIGN.md 4 (C01)",
         note="partial: there is no Coq model of the generic load layer over JSON/XML/CSV for std containers and classes (C18 models container loading; RapidJSON and pugixml are third party), so for those the quantified statement rests on the end-to-end exploration, which samples values and configurations. The models the theorems speak about are tied to /repo by the correspondences of C06/C07/C09/C13/C11/C16/C08, not repeated here.",
         technique="Coq proof (writer/reader model compositions) + end-to-end round-trip exploration of the implementation with the property as oracle"),
+    "C03": dict(
+        category="proof",
+        text="PARTIAL (MsgPack only). Coq theorems T_C03_* (coq/Properties_C03.v, 28, closed under the global context) over a model of CMsgPackReadObjectScope / ArrayScope / BinaryScope (FindValueByKey with its cursor and wrap-around, ReadKey for every key format, CVariableKey equality, ResetKey, the guarded destructors with their tail skip, the close-failure flag reported by Finalize): for every well-formed object document, any trailing data and EVERY error-free history of requests (any order, repeats, absent keys, unrequested members, nested objects / arrays / byte arrays left partly read) the answers are those of the association list the reference decoder assigns to the document and the reader ends exactly behind the object (T_C03_mp_refines, full strength since the repairs of F14 and F17); the cursor invariant is kept by every request; an unsuccessful full cycle returns to its start; the destructors are total on any input and a failed close is reported as ParsingError by Finalize; array scopes count exactly the elements consumed (T_C05_array_scope_counts*). Tied to /repo by correspondence of the extracted model with the real scopes over the string reader, the stream reader and MsgPackReadRootScope on generated histories (documents from an independent encoder, all key kinds and widths, ill-formed documents for the error paths).",
+        design_ref="DESIGN.md 4 (C03)",
+        note="JSON / XML / CSV object scopes are not modelled here (JSON and XML lookups are by name in third-party DOMs: covered by T_C08_load_member_order and the C01/C17/C18 runs; CSV column lookup is T_C09_reader_any_header). Not proved: histories ending in an error (spec vs model compared on every run), fuel sufficiency of the find/visit loops on ill-formed input; the stream reader under the scopes is tied by correspondence only. Defects F12 F13 F14 F17 F54 found here were repaired.",
+        technique="Coq proof (refinement of the cursor-based key search to an association list, invariant over request histories) with extracted-model vs implementation correspondence"),
     "C04": dict(
         category="proof",
         text="Coq theorems T_C04_* (coq/Properties_C04.v, 24): for every pair of the 13 integer kinds (and any widths) and every in-range source value, the model of Convert's integer-to-integer path and of ConvertByPolicy/SafeNumberCast returns the same value iff it fits the target and OutOfRange otherwise, never an altered value; the policy layer turns that into throw / keep-old-value exactly as configured, for any non-convertible pair into MismatchedTypes; integer->float/double accepts exactly the integers the target represents exactly and is total (no cast UB); double->float accepts exactly the doubles that are floats (Flocq binary32/binary64), float->double is exact; floating->integer is refused. Tied to /repo by correspondence: all type pairs x boundary neighbourhoods of every width, exact-rational oracle for the floating cases, built with -fsanitize=float-cast-overflow. Defects F44 (cast UB) and F45 (lost MismatchedTypes) found here were repaired (30e94fb, 76c37b6).",
